@@ -9,6 +9,8 @@ import Emboss.Lemmas.BoundsGate
 import Emboss.Lemmas.BoundsTight
 import Emboss.Lemmas.BoundsSize
 import Emboss.Lemmas.BoundsTotal
+import Emboss.Lemmas.BoundsTyped
+import Emboss.Lemmas.BoundsTightChoice
 namespace Emboss.Bounds
 open ExtInt
 
@@ -159,33 +161,32 @@ example :
 `invPy` is the assert block of `_assert_integer_constraints` as written.  The inductive
 invariant is `InvOk a := invPy a = some true ∧ CanonMv a ∧ FiniteConst a`
 (Spec/BoundsInv.lean, a decidable `Bool`):
-* `FiniteConst` — no "constant infinity" (`modulus = modular_value = "infinity"`): the
-  crash root F8, produced only by `$upper_bound`/`$lower_bound` of an argument with an
-  infinite bound; it passes the asserts and then crashes `+ - * ?:`;
+* `FiniteConst` — no "constant infinity" (`modulus = modular_value = "infinity"`), which
+  passes the asserts and crashes `+ - * ?:`; since the fix of F8 (`$upper_bound` /
+  `$lower_bound` of an infinite bound yield the unbounded annotation) no transfer
+  function produces it;
 * `CanonMv` — `0 ≤ modular_value < modulus`: what every transfer function produces
   (`% modulus`) and what the asserts force whenever one bound is finite; needed because the
   asserts never look at `modular_value` of a value without finite bounds
   (`C05_inv_needs_canonical_counterexample`).
 Proved: every transfer function maps `InvOk` arguments to a result — it does **not raise** —
 that is `InvOk` again (`C05_inv_transfer`, `C05_inv_transfer_max`), leaves and literals
-satisfy it (`C05_inv_leaves`), hence every annotation `abs` attaches to a subexpression
-of an expression without an infinite `$upper_bound`/`$lower_bound` (`FiniteBounds`,
-decidable) passes `_assert_integer_constraints` (`C05_inv_preserved`).  The hypothesis
-is necessary (`C05_inv_preserved_counterexample`, `C05_crash_counterexample` = open
-findings).  Totality: `abs` returns on the whole arithmetic fragment (`C05_no_crash_arith`).  Not stated:
-"`abs e ≠ none` for every well-typed `e`" with comparisons — a comparison raises `KeyError`
-through `ir_util.constant_value` (`C05_crash_counterexample`, third conjunct: open finding),
-and the model has no type checker to exclude ill-typed comparison operands.
+satisfy it (`C05_inv_leaves`), hence **every** annotation `abs` attaches passes
+`_assert_integer_constraints` (`C05_inv_preserved`, no side condition on the expression).
+Totality: `abs` (and `ir_util.constant_value`) return on every well-typed expression,
+comparisons, `&&`, `||` and `?:` on arbitrary conditions included (`C05_no_crash`; the typing
+discipline `tyOf` is Model/ExprType.lean); `C05_no_crash_arith` is the earlier statement for the
+arithmetic fragment, kept because it does not need `tyOf`.
 -/
 
 /-- **Every transfer function preserves the invariant and does not raise.**
 `+`, `-`, `*` (const×const, const×var, var×var), `?:` with an unknown condition,
-`$upper_bound`/`$lower_bound` of a finite bound. -/
+`$upper_bound`/`$lower_bound`. -/
 theorem C05_inv_transfer (l r : AVal) (hl : InvOk l = true) (hr : InvOk r = true) :
     (∀ isSub, ∃ a, additive isSub l r = some a ∧ InvOk a = true) ∧
     (∃ a, multiplicative l r = some a ∧ InvOk a = true) ∧
     (∃ a, choiceHull l r = some a ∧ InvOk a = true) ∧
-    (∀ up c, (if up then l.max else l.min) = .fin c → InvOk (boundFn up l) = true) := by
+    (∀ up, InvOk (boundFn up l) = true) := by
   have hl' := InvS_of_InvOk hl
   have hr' := InvS_of_InvOk hr
   refine ⟨fun s => ?_, ?_, ?_, ?_⟩
@@ -195,8 +196,8 @@ theorem C05_inv_transfer (l r : AVal) (hl : InvOk l = true) (hr : InvOk r = true
     exact ⟨a, h1, InvOk_of_InvS h2⟩
   · obtain ⟨a, h1, h2⟩ := choiceHull_inv hl' hr'
     exact ⟨a, h1, InvOk_of_InvS h2⟩
-  · intro up c h
-    rw [boundFn_inv h]; exact InvOk_const c
+  · intro up
+    exact InvOk_of_InvS (boundFn_invS up l)
 
 /-- non-vacuity: the var×var example of the soundness theorem, on the annotations -/
 example :
@@ -225,13 +226,12 @@ theorem C05_inv_leaves (k : LeafKind) (size : Option Int) (v : Int) :
   ⟨leafRange_invOk k size, by decide, InvOk_const v⟩
 
 /-- **`_assert_integer_constraints` holds of every annotation** the analysis attaches to an
-expression that contains no `$upper_bound`/`$lower_bound` of an infinite bound
-(`FiniteBounds`, the decidable hypothesis excluding F8) and whose preset
-`$logical_value` annotations satisfy the invariant (`GivenOk`); by `abs`'s recursion the same
-holds at every subexpression.  The conclusion is the strengthened, inductive invariant. -/
-theorem C05_inv_preserved (e : Expr) (hg : GivenOk e = true) (hf : FiniteBounds e = true)
+expression whose preset `$logical_value` annotations satisfy the invariant (`GivenOk`); by
+`abs`'s recursion the same holds at every subexpression.  The conclusion is the
+strengthened, inductive invariant. -/
+theorem C05_inv_preserved (e : Expr) (hg : GivenOk e = true)
     (a : AVal) (h : abs e = some (.int a)) : invPy a = some true ∧ InvOk a = true := by
-  have h1 : InvOk a = true := InvOk_of_InvS (inv_aux e hg hf _ h)
+  have h1 : InvOk a = true := InvOk_of_InvS (inv_aux e hg _ h)
   refine ⟨?_, h1⟩
   simp only [InvOk, Bool.and_eq_true, beq_iff_eq] at h1
   exact h1.1.1
@@ -242,31 +242,57 @@ example :
     let e : Expr := .bin .mul
       (.bin .add (.bin .mul (.ileaf 0 .uint (some 12)) (.const 12)) (.upper (.ileaf 2 .bcd (some 7))))
       (.max [.choice (.bleaf 0) (.ileaf 1 .sint (some 9)) (.const 15), .const 3])
-    GivenOk e = true ∧ FiniteBounds e = true ∧
+    GivenOk e = true ∧
     abs e = some (.int ⟨.fin 237, .fin 12550845, .fin 1, .fin 0⟩) := by
   decide +kernel
 
 /-- **The analysis never raises on the arithmetic fragment.**  For every integer expression
 over literals, integer leaves of any kind/size, `$static_size_in_bits`, `$logical_value`,
 references to virtual fields, `+ - *`, `$max`, `$upper_bound`, `$lower_bound` and `?:` on a
-boolean field or literal (`ArithOnly`), without an infinite `$upper_bound`/`$lower_bound`
-(`FiniteBounds`): `compute_constraints_of_expression` returns — no assert fails, no
-`int("infinity")`, no `"infinity" % n` — an integer annotation satisfying the invariant.
-(Comparisons are outside the fragment: their annotation calls `ir_util.constant_value`,
-which raises `KeyError` — `C05_crash_counterexample`.) -/
-theorem C05_no_crash_arith (e : Expr) (h : ArithOnly e = true) (hg : GivenOk e = true)
-    (hf : FiniteBounds e = true) : ∃ a, abs e = some (.int a) ∧ InvOk a = true := by
-  obtain ⟨a, h1, h2⟩ := total_aux e h hg hf
+boolean field or literal (`ArithOnly`): `compute_constraints_of_expression` returns — no
+assert fails, no `int("infinity")`, no `"infinity" % n` — an integer annotation satisfying
+the invariant.  (Comparisons are outside the fragment only because the model has no type
+checker for their operands.) -/
+theorem C05_no_crash_arith (e : Expr) (h : ArithOnly e = true) (hg : GivenOk e = true) :
+    ∃ a, abs e = some (.int a) ∧ InvOk a = true := by
+  obtain ⟨a, h1, h2⟩ := total_aux e h hg
   exact ⟨a, h1, InvOk_of_InvS h2⟩
 
-/-- non-vacuity, and necessity of `FiniteBounds`: the F8 input is in the fragment -/
+/-- non-vacuity; the former F8 input is in the fragment -/
 example :
     let e : Expr := .choice (.bleaf 0)
       (.bin .sub (.vref (.bin .mul (.ileaf 0 .sint (some 16)) (.const (-6)))) (.upper (.ileaf 2 .bcd (some 12))))
       (.max [.given 3 ⟨.fin 4, .posInf, .fin 8, .fin 4⟩, .lower (.ileaf 4 .uint (some 3))])
-    ArithOnly e = true ∧ GivenOk e = true ∧ FiniteBounds e = true ∧
-    ArithOnly (.bin .mul (.upper (.ileaf 0 .uint none)) (.const 2)) = true ∧
-    FiniteBounds (.bin .mul (.upper (.ileaf 0 .uint none)) (.const 2)) = false := by
+    ArithOnly e = true ∧ GivenOk e = true ∧
+    ArithOnly (.bin .mul (.upper (.ileaf 0 .uint none)) (.const 2)) = true := by
+  decide +kernel
+
+/-- **The analysis never raises on a well-typed expression.**  For every expression that is
+well typed with type `τ` (`tyOf e = some τ`: `+ - *` on integers, `< <= > >=` on integers,
+`== !=` on two integers / two booleans / two enum values, `&& ||` on booleans, `?:` on a boolean
+and two operands of one type, `$max` of ≥ 1 integers, `$upper_bound`/`$lower_bound` of an
+integer, literals, fields, parameters, references to virtual fields) whose preset annotations
+satisfy the invariant: `compute_constraints_of_expression` returns an annotation of type `τ`
+that satisfies the invariant, and `ir_util.constant_value` does not raise and, when it knows
+a value, the value has type `τ`.  No assert fails, no `int("infinity")`, no `"infinity" % n`,
+no `KeyError`. -/
+theorem C05_no_crash (e : Expr) (τ : Ty) (ht : tyOf e = some τ) (hg : GivenOk e = true) :
+    (∃ ty, abs e = some ty ∧ ty.tag = τ ∧ InvOkT ty = true) ∧
+    cv e ≠ .crash ∧ (∀ x, cv e = .val x → x.tag = τ) := by
+  obtain ⟨⟨ty, habs, htag⟩, hc1, hc2⟩ := typed_aux e τ ht hg
+  exact ⟨⟨ty, habs, htag, InvT_iff.mpr (inv_aux e hg ty habs)⟩, hc1, hc2⟩
+
+/-- non-vacuity: `((a0 + 1 > $upper_bound(a1)) && (en == En.AA || fl)) ? $max(a0, 3) : a0 * dyn`
+    (with `dyn` of unknown size) is well typed; an ill-typed comparison is not, and there the
+    model's `abs` has no answer (type_check.py rejects such input before bounds are computed) -/
+example :
+    let a0 : Expr := .ileaf 0 .uint (some 8)
+    let e : Expr := .choice
+      (.bin .and (.bin .gt (.bin .add a0 (.const 1)) (.upper (.ileaf 1 .sint (some 16))))
+                 (.bin .or (.bin .eq (.eleaf 0) (.econst 1)) (.bleaf 0)))
+      (.max [a0, .const 3]) (.bin .mul a0 (.ileaf 2 .uint none))
+    tyOf e = some .int ∧ GivenOk e = true ∧
+    tyOf (.bin .lt (.bleaf 0) (.const 1)) = none ∧ abs (.bin .lt (.bconst true) (.const 1)) = none := by
   decide +kernel
 
 /-- **`invPy` alone is not inductive**: an annotation without finite bounds passes the
@@ -277,25 +303,15 @@ theorem C05_inv_needs_canonical_counterexample :
     invPy a = some true ∧ FiniteConst a = true ∧ additive false a (constRange 1) = none := by
   decide +kernel
 
-/-- **F8: the invariant is not preserved without the finiteness hypothesis.**
-`$upper_bound(x)` of an unbounded `x` is the "constant infinity"; it *passes*
-`_assert_integer_constraints`, and then `* 2` raises (ValueError), `+ z` raises
-(TypeError), `- $upper_bound(x)` trips the assert in `_add`, `?:` raises in
-`_shared_modular_value`.  Replayed on the real code: findings.d/C05.json. -/
-theorem C05_inv_preserved_counterexample :
-    let inf := boundFn true unboundedLeaf
-    let z := leafRange .uint (some 8)
-    invPy inf = some true ∧ invPy z = some true ∧ invPy (constRange 2) = some true ∧
-    multiplicative inf (constRange 2) = none ∧ additive false inf z = none ∧
-    additive true inf inf = none ∧ choiceHull inf z = none := by
-  decide +kernel
-
-/-- the same on whole expressions, plus the KeyError of `ir_util.constant_value` for a
-    `$upper_bound` with a constant operand inside a comparison -/
-theorem C05_crash_counterexample :
-    abs (.bin .mul (.upper (.ileaf 0 .uint none)) (.const 2)) = none ∧
-    abs (.bin .eq (.upper (.const 3)) (.const 3)) = none ∧
-    cv (.upper (.const 3)) = .crash := by
+/-- F8 repaired: `$upper_bound` of an unbounded argument is the unbounded annotation, and
+    arithmetic on it returns (the 64-bit gate then rejects the expression as unbounded);
+    `ir_util.constant_value` of a bound function is read from the annotation -/
+example :
+    abs (.bin .mul (.upper (.ileaf 0 .uint none)) (.const 2)) =
+      some (.int ⟨.negInf, .posInf, .fin 2, .fin 0⟩) ∧
+    abs (.bin .eq (.upper (.const 3)) (.const 3)) = some (.bool (some true)) ∧
+    cv (.upper (.const 3)) = .val (.int 3) ∧
+    cv (.upper (.ileaf 0 .uint none)) = .unknown := by
   decide +kernel
 
 /-!
@@ -337,6 +353,43 @@ example : LinOnce (.bin .sub (.ileaf 0 .uint (some 8)) (.ileaf 0 .uint (some 8))
     abs (.bin .sub (.ileaf 0 .uint (some 8)) (.ileaf 0 .uint (some 8))) =
       some (.int ⟨.fin (-255), .fin 255, .fin 1, .fin 0⟩) := by
   decide +kernel
+
+/-- **Tightness of `?:` with an independent, non-constant condition.**  If both branches are in
+the single-occurrence fragment and mention disjoint leaves, the condition mentions none of the
+branches' leaves, the analysis does not fold the condition (`abs c` is a boolean without value)
+and the condition can evaluate to `true` as well as to `false`, then the analysis returns, both
+ends of the inferred interval are finite and each is attained.  The last hypothesis is what F12
+(`C05_tight_choice_counterexample`: a tautological condition) violates. -/
+theorem C05_tight_choice_independent (c t f : Expr)
+    (ht : LinOnce t = true) (hf : LinOnce f = true)
+    (hdtf : disjoint (ivars t) (ivars f) = true)
+    (hdtc : disjoint (ivars t) (ivars c) = true) (hdfc : disjoint (ivars f) (ivars c) = true)
+    (hc : abs c = some (.bool none))
+    (hT : ∃ ρ, EnvOk ρ c ∧ eval ρ c = some (.bool true))
+    (hF : ∃ ρ, EnvOk ρ c ∧ eval ρ c = some (.bool false)) :
+    ∃ a lo hi, abs (.choice c t f) = some (.int a) ∧ a.min = .fin lo ∧ a.max = .fin hi ∧
+      (∃ ρ, EnvOk ρ (.choice c t f) ∧ eval ρ (.choice c t f) = some (.int lo)) ∧
+      (∃ ρ, EnvOk ρ (.choice c t f) ∧ eval ρ (.choice c t f) = some (.int hi)) := by
+  obtain ⟨a, habs, _, lo, hi, h1, h2, h3, h4⟩ := choice_tight ht hf hdtf hdtc hdfc hc hT hF
+  exact ⟨a, lo, hi, habs, h1, h2, h3, h4⟩
+
+/-- non-vacuity: `(a0 > 3 || fl) ? a1 + 1 : 2 * a2` over `UInt:8 a0, a1`, `Int:4 a2`, `Flag fl`
+    meets every hypothesis; the inferred interval is −16 … 256 -/
+example :
+    let c : Expr := .bin .or (.bin .gt (.ileaf 0 .uint (some 8)) (.const 3)) (.bleaf 0)
+    let t : Expr := .bin .add (.ileaf 1 .uint (some 8)) (.const 1)
+    let f : Expr := .bin .mul (.const 2) (.ileaf 2 .sint (some 4))
+    LinOnce t = true ∧ LinOnce f = true ∧ disjoint (ivars t) (ivars f) = true ∧
+    disjoint (ivars t) (ivars c) = true ∧ disjoint (ivars f) (ivars c) = true ∧
+    abs c = some (.bool none) ∧
+    (∃ ρ, EnvOk ρ c ∧ eval ρ c = some (.bool true)) ∧
+    (∃ ρ, EnvOk ρ c ∧ eval ρ c = some (.bool false)) ∧
+    abs (.choice c t f) = some (.int ⟨.fin (-16), .fin 256, .fin 1, .fin 0⟩) := by
+  refine ⟨by decide +kernel, by decide +kernel, by decide +kernel, by decide +kernel,
+    by decide +kernel, by decide +kernel,
+    ⟨⟨fun _ => 4, fun _ => false, fun _ => 0⟩, ?_, by decide +kernel⟩,
+    ⟨⟨fun _ => 0, fun _ => false, fun _ => 0⟩, ?_, by decide +kernel⟩, by decide +kernel⟩ <;>
+  simp [EnvOk, InPhys]
 
 /-- **F12: `?:` with a tautological, non-folded condition is not tight.**
 `$upper_bound(x >= 0 ? 1 : 100)` over `UInt:8 x` is 100; `x` occurs once; the inner
